@@ -158,6 +158,9 @@ pub async fn run_op(fs: &FileSystem, op: &Value, uploads: &mut HashMap<String, S
                 if let Some(c) = op["crc32c"].as_str() {
                     b.set_checksum_crc32c(Some(c.to_owned()));
                 }
+                if let Some(c) = op["content_md5"].as_str() {
+                    b.set_content_md5(Some(c.to_owned()));
+                }
                 let o = call!(fs.put_object(req(b.build().unwrap(), cred)));
                 format!("ok:{}", o.e_tag.unwrap_or_default())
             }
@@ -213,7 +216,21 @@ pub async fn run_op(fs: &FileSystem, op: &Value, uploads: &mut HashMap<String, S
             }
             "copy" => {
                 let src = CopySource::Bucket { bucket: s("src_bucket").unwrap().into(), key: s("src_key").unwrap().into(), version_id: None };
-                let o = call!(fs.copy_object(req(CopyObjectInput::builder().bucket(bucket).key(key).copy_source(src).build().unwrap(), cred)));
+                let mut b = CopyObjectInput::builder();
+                b.set_bucket(bucket);
+                b.set_key(key);
+                b.set_copy_source(src);
+                if let Some(d) = op["metadata_directive"].as_str() {
+                    b.set_metadata_directive(Some(MetadataDirective::from(d.to_owned())));
+                }
+                if let Some(m) = op["metadata"].as_object() {
+                    let mut md = Metadata::default();
+                    for (k, v) in m {
+                        md.insert(k.clone(), v.as_str().unwrap().to_owned());
+                    }
+                    b.set_metadata(Some(md));
+                }
+                let o = call!(fs.copy_object(req(b.build().unwrap(), cred)));
                 format!("ok:{}", o.copy_object_result.and_then(|r| r.e_tag).unwrap_or_default())
             }
             "list" => {
